@@ -10,7 +10,7 @@ from riolib.sym import Sym, for_loops, path_assignment, eval_bool, consistent_wi
 from .c01 import option_bool_presence_tests
 
 MANIFEST = {
-    "text": "Static decision of each mechanism the action fold is made of: the five response-code guards as truth tables over (codes empty, exclude flag, contains, code==0) compared with the reference predicate on every consistent assignment; the per-iteration fold table (produced/reset/stop -> assign/merge/return); the two merge blocks against one shared reference incl. field provenance of the merged value; attribution provenance (rule id, code list, exclude flag) of every effect aggregate; the sampling decision table and its constants; option flag read by value.",
+    "text": "Static decision of each mechanism the action fold is made of: the five response-code guards as truth tables over (codes empty, exclude flag, contains, code==0) compared with the reference predicate on every consistent assignment; the per-iteration fold table (produced/reset/stop -> assign/merge/return); the two merge blocks against one shared reference incl. field provenance of the merged value; attribution provenance (rule id, code list, exclude flag) of every effect aggregate; the sampling decision table and its constants; option flag read by value. Also: the guarded loops are on every path to a return, and merge only appends to the lists of self.",
     "technique": "static analysis: path-sensitive decision tables and provenance over MIR, compared with reference tables",
 }
 
